@@ -114,3 +114,15 @@ def assigned_subscripts(fn: ast.AST, into_nested=False):
             out.append((n.target, n.value, n))
     out.sort(key=lambda t: t[2].lineno)
     return out
+
+
+def conjuncts(test: ast.AST) -> List[str]:
+    """sorted normalised conjuncts of an `and` chain (a single test is its own conjunct)"""
+    vals = test.values if isinstance(test, ast.BoolOp) and isinstance(test.op, ast.And) else [test]
+    out = []
+    for v in vals:
+        if isinstance(v, ast.BoolOp) and isinstance(v.op, ast.And):
+            out += conjuncts(v)
+        else:
+            out.append(norm(v).replace(" ", ""))
+    return sorted(out)
